@@ -729,7 +729,11 @@ func (cs *ConsensusState) handleMsg(mi msgInfo, rs RoundState) {
 		err = cs.setProposal(msg.Proposal)
 	case *BlockPartMessage:
 		// if the proposal is complete, we'll enterPrevote or tryFinalizeCommit
-		_, err = cs.addProposalBlockPart(msg.Height, msg.Part, peerKey != "")
+		// Our own parts are verified too: between queueing our proposal and handling
+		// its parts, +2/3 precommits (or a polka) for another block may have replaced
+		// ProposalBlockParts; an unverified part of our block would then complete that
+		// block's part set with the wrong bytes and the node could never commit it.
+		_, err = cs.addProposalBlockPart(msg.Height, msg.Part, true)
 		if err != nil && msg.Round != cs.Round {
 			err = nil
 		}
